@@ -293,8 +293,14 @@ def sfail (e : Err) (sent : List SSent) : SRes := { err := e, sent := sent, cons
 def SRes.after (r : SRes) (s : List SSent) (p : List PermCall) : SRes :=
   { r with sent := s ++ r.sent, perms := p ++ r.perms, consumed := r.consumed + 1 }
 
+/-- `serverSupported`: the receiving side neither advertises nor accepts a mechanism whose name
+ends in "-PLUS" (the SASL library's server side has no channel binding and panics on it) -/
+def serverSupported (name : String) : Bool :=
+  -- `strings.HasSuffix(name, "-PLUS")` on the reversed character list (reduces under `decide`)
+  !(name.toList.reverse.take 5 == ['S', 'U', 'L', 'P', '-'])
+
 def lookup (cfg : List (String × Mech)) (name : String) : Option (String × Mech) :=
-  cfg.find? (fun m => name == m.1)
+  cfg.find? (fun m => name == m.1 && serverSupported m.1)
 
 /-- what one peer element does to the receiving loop: end it, or send a challenge and go on
 with the (possibly new) negotiator -/
